@@ -172,9 +172,17 @@ func (vhFrameCodec) Encode(message any) ([]byte, error) {
 	}
 	return append([]byte{}, b.B...), nil
 }
+// vhKeepInput: the codec keeps the slice it is handed instead of copying it (a
+// zero-copy codec, or a message type with a []byte field): what it returned for
+// one frame must not change when later frames are read.
+var vhKeepInput bool
+
 func (vhFrameCodec) Decode(data []byte) (any, error) {
 	if len(data) > 0 && data[0] == 0xEE {
 		return nil, errors.New("undecodable payload")
+	}
+	if vhKeepInput {
+		return &vhBody{B: data}, nil
 	}
 	return &vhBody{B: append([]byte{}, data...)}, nil
 }
@@ -213,6 +221,7 @@ func vhDrive(c *tcpConnectionActor, ctx *vhCtx, maxRounds int) {
 // reads (at most `partials` short reads, the rest coalesced) must deliver every
 // body exactly once, intact, in order, with the original sender reference.
 func VH_C11_frames() {
+	vhKeepInput = vrtBool()
 	F := vrtParam("frames", 2)
 	maxbody := vrtParam("maxbody", 2)
 	var stream []byte
